@@ -64,6 +64,18 @@ def run_impl(case):
     tapped, names = muxprop.with_taps(case['ast'])
     obs = muxlib.run_mux(tapped, case['trace'], taps=True)
     obs['tap_names'] = {str(k): v for k, v in names.items()}
+    plain_ast = muxprop.strip_taps(case['ast'])
+    if len(plain_ast) >= 2 and 'route' not in muxprop.kinds(plain_ast):
+        # the same operators in two chained with_store scopes (own store, own topology each)
+        try:
+            k = 1 + (len(case['trace']) % (len(plain_ast) - 1))
+            ch = muxlib.run_mux(plain_ast, case['trace'], split_at=k)['steps']
+            ref = [[o for o in st] for st in muxlib.run_mux(plain_ast, case['trace'])['steps']]
+            if ch != ref:
+                obs['chained'] = 'split after operator %d: two chained store scopes emit %s, one scope emits %s' % (
+                    k, str(ch)[:200], str(ref)[:200])
+        except Exception as e:
+            obs['chained'] = 'two chained with_store scopes raised %s: %s' % (type(e).__name__, str(e)[:100])
     lts = muxgen.lifetimes_of(case['trace'])
     if lts:
         try:
@@ -78,6 +90,8 @@ def oracle(case, obs):
         return None
     if obs.get('entry'):
         return {'sig': 'protocol:entry-point', 'what': obs['entry']}
+    if obs.get('chained'):
+        return {'sig': 'protocol:chained-store-scopes', 'what': obs['chained']}
     for tid, log in sorted(obs['taps'].items(), key=lambda kv: int(kv[0])):
         v = muxprop.protocol_violation(log)
         if v:
@@ -107,7 +121,7 @@ def describe(cases, obs):
 
 
 CLAIM = {
-    'text': 'Theorems (Coq): for every pipeline P of the grammar and every well-formed input trace, the output trace is well-formed (create / items / exactly one completion per key, no event for a non-live key, no two live keys sharing a slot) and leaves the same keys live as the input; hence every key is completed when the stream completes. Covers every boundary of flat pipelines (prefixes are pipelines); the protocol of the traces fed to inner pipelines is discharged inside group/roll/seg_refines and not restated (partial there). Checked on the code with a recording tap after EVERY operator, at the head/tail of every inner pipeline and tee branch (protocol monitor = model-free oracle), random pipelines plus all nestings of the 6 composite kinds to depth 2 (thorough 3).',
+    'text': 'Theorems (Coq): for every pipeline P of the grammar and every well-formed input trace, the output trace is well-formed (create / items / exactly one completion per key, no event for a non-live key, no two live keys sharing a slot) and leaves the same keys live as the input; hence every key is completed when the stream completes. Covers every boundary of flat pipelines (prefixes are pipelines); the trace fed to the inner pipeline of group_by, split, time_split and roll (w = s) is proved well-formed for every well-formed outer trace, stated on the heads alone; for the sliding roll it is discharged inside roll_refines. Checked on the code with a recording tap after EVERY operator, at the head/tail of every inner pipeline and tee branch (protocol monitor = model-free oracle), random pipelines plus all nestings of the 6 composite kinds to depth 2 (thorough 3).',
     'note': 'Trusted: Coq kernel+VM; hand-written model tied by correspondence; taps are harness-defined pass-through operators; errors_handled fragment.',
     'technique': 'Coq proof (forward-simulation refinement of a slot-level model by per-key local machines, list-level induction) + vm_compute correspondence against /repo + model-free oracle',
 }
